@@ -52,8 +52,11 @@ func genC09(t *rapid.T) CaseC09 {
 		}
 	}
 	if c.Path == "decoded" {
-		// (BadCRC is no longer drawn: a section with a stale CRC_32 is not a canonical well-formed section, and an encoder that
-		// hands back the decoded bytes while nothing was changed re-emits what it was given; the field remains for replay files)
+		if rapid.IntRange(0, 3).Draw(t, "bad-crc") == 0 {
+			// a stale CRC_32 on the input: a decoder may refuse it; what it accepts must be re-emitted with a correct CRC_32
+			// ("a CRC_32 that makes the MPEG-2 CRC of the whole section zero" holds for every serialisation)
+			c.BadCRC = rapid.IntRange(1, 32).Draw(t, "bad-crc-bit")
+		}
 		c.Tail = rapid.SampledFrom([]int{0, 0, 0, 1, 4, 30}).Draw(t, "tail")
 		// no alignment_stuffing on the input side: such a section is not canonical, and whether a decoder keeps the count
 		// (and re-emits the bytes) or drops it is not stated. C08 decodes sections with stuffing.
